@@ -442,4 +442,37 @@ prop('C13',
      assumptions=['serde + postcard derive output (bounded Kani on toy suites + sampled concrete runs)', 'PartialEq on the state types is structural equality (E2)'],
      design_ref='DESIGN.md section 4 C13')
 
+prop('C18', units=['frost_secp256k1_tr'],
+     level_text='Unit frost_secp256k1_tr = the frost-core modules (verified WITHOUT the default-world axiom) + frost-secp256k1-tr/src/lib.rs extracted mechanically, against '
+                'an opaque model of k256/sha2 (prelude/k256_model.rs).  For ALL inputs and all parities Verus proves the real text of the Taproot hooks (pre_sign, pre_aggregate, '
+                'pre_verify, single_sign, generate_nonce, challenge, compute_signature_share, verify_share, serialize_signature, deserialize_signature, post_dkg, H2, and the four hooks the suite '
+                'leaves at their default), of the EvenY / Tweak impls for KeyPackage, PublicKeyPackage, VerifyingKey, GroupCommitment, Signature, of tweak / tagged_hash / '
+                'hasher_to_scalar / negate_nonce(s) and of the sign / sign_with_tweak / aggregate / aggregate_with_tweak wrappers against contracts transcribed from BIP-340/341: challenge = '
+                'int(hash_BIP0340/challenge(x(R)||x(P)||m)) mod n; t = int(hash_TapTweak(x(P)||root?)); into_even_y negates key, every verifying share and the signing share iff the '
+                'key has odd Y; tweak = even-Y normalisation first, then +t*G / +t on key, every verifying share, signing share; nonces (signer) resp. commitment share (verifier) negated iff '
+                'the group commitment has odd Y; 64-byte encoding x(R)||ser(z), decoding lifts to even Y; post_dkg = tweak(None) on both packages.  The impl DEFINES the trait-level hook '
+                'spec functions as these, so the Taproot world (lemma_taproot_world) is proved, not assumed.  frost-core\'s sign / aggregate_custom / aggregate / detect_cheater / '
+                'verify_signature_share_precomputed / VerifyingKey::verify / SigningKey::sign / default_sign / batch::Item::new are verified here against WORLD-GENERIC contracts (lemmas/vspec_w.rs: the hook spec functions '
+                'threaded through exactly as the code calls the hooks).  Machine-checked theorems (lemmas/vprops_tr.rs): verify_share accepts exactly the share compute_signature_share '
+                'produces, for both parities of the group commitment and of the group key (thm_tr_share_accepted_iff, thm_tr_hooks_share_parity, thm_tr_share_check_exact, '
+                'thm_tr_key_parity_consistent); if every signer is honest and the key shares lie on a polynomial with constant term the group secret (C06/C07), aggregate returns Ok and the '
+                '64-byte signature passes the transcribed BIP-340 Verify under the x-only key of the package, for all parities of key and R (thm_tr_aggregate_bip340); tweaking keeps the sharing and '
+                'yields the BIP-341 output key lift_x(x(P)) + t*G on both packages (thm_tr_tweak_keeps_sharing, thm_tr_tweaked_packages), so the same holds under the output key with or without a '
+                'script root; post_dkg returns the key-path-only tweak (thm_tr_dkg_key_path_only); verification under the UNTWEAKED key holds iff e*ev(Q) == e\'*ev(P) (thm_tr_untweaked_key_iff).',
+     level_note='ASSUMED about k256/sha2/subtle (K1-K12, prelude/k256_model.rs): operators are the field/group operations; to_affine/x/y_is_odd are functions of the point; -P keeps x and (P != 0) flips the '
+                'parity of y; a point != 0 is determined by x and the parity of y; x is 32 bytes; SEC1 compressed encoding = 02/03 by parity || x; Sha256 is a deterministic streaming hash; '
+                'Scalar::reduce(U256::from_be_slice(b)) is a function of b.  T3/T4 for k256: 33 external_body proof fns in the impl Field / impl Group blocks (contracts_tr/tr_model.vc).  T6 addenda: a '
+                'BTreeMap is determined by its view (needed because hooks.vc states pre_aggregate/post_dkg results as equations); AsRef<[u8]> for &[u8] is the identity.  One definitional axiom '
+                '(tr_rnz).  NOT decided: independent verifiers (libsecp256k1, Python) are replaced by the transcribed BIP-340 Verify; "does not verify under the untweaked key" is reduced to a '
+                'relation between two hash outputs, not excluded; BIP-341 rejects t >= n where the code reduces mod n (probability < 2^-127); SigningKey::into_even_y (assumed: it panics on the zero key and Verus allows no precondition on a trait-impl method), H1/H3/H4/H5/HDKG/HID, '
+                'hash_to_array/hash_to_scalar and the Field/Group method bodies are assumed or without contract; frost::verify_signature_share has no world-generic contract (emitted without contract); '
+                'the dealer path is NOT tweaked by the library (post_generate is not overridden) -- dealer keys are covered through sign_with_tweak/aggregate_with_tweak; theorem premise "the even-Y '
+                'package exists" is witnessed by every execution of pre_aggregate (BTreeMap has no spec-level constructor).',
+     assumptions=['K1-K12: model of k256 / sha2 / subtle (prelude/k256_model.rs), each an ensures or axiom fn there',
+                  'T3/T4 for k256: field, group and codec laws as external_body proof fns in impl Field / impl Group (contracts_tr/tr_model.vc)',
+                  'T6 addenda: BTreeMap extensionality (ax_btreemap_ext), AsRef<[u8]> for &[u8] (ax_asref_slice); vstd lacks range IndexMut on Vec: the two copy_from_slice statements of serialize_signature are outlined with operand holes',
+                  'independent BIP-340 verifiers are replaced by the transcribed predicate bip340_verify',
+                  'honest-run theorem premises: key shares on a polynomial with <= |signers| coefficients (C06/C07), group commitment != identity, the even-Y package exists'],
+     design_ref='DESIGN.md section 4 C18')
+
 prop('CDEV', level_text='dev', level_note='dev', claimed=False)
